@@ -70,6 +70,8 @@ def run(ctx):
                "non-reduced supersets; measures are integers and halves (floats k/2), NoM = property absent",
                "a measure write may always mark the index stale instead of being absorbed; a stale index must not answer",
                "COUNT = |{y} + descendants(y)| (answered structurally, as the planner rewrite of count(d) needs)",
+               "label-restricted measures (MEASURE Label.prop) are exercised with a fixed labelling (odd nodes carry the label); labels "
+               "are not changed after the index is built",
                "planner clause: six query shapes per root (sum/count/min/max roll-up, descendants in both spellings) run on a store with "
                "the index and on a twin without; subsumes()-predicate shapes are not compared because without a usable index the "
                "function has no expansion to fall back to")
@@ -77,7 +79,7 @@ def run(ctx):
     tr = ctx.run_harness("hier", sp, name="hier-api", args=["layers=api"], timeout=3000)
     ctx.validate("Hierarchy_Trace", TRACE.format(nodes="= {1,2,3,4,5}"), tr, name="Hierarchy_Trace-api", corrupt=corrupt, timeout=3000)
     sp = ctx.write_scripts("hier-store", st, prefix="st")
-    tr = ctx.run_harness("hier", sp, name="hier-store", args=["layers=store,store-cy"], timeout=3000)
+    tr = ctx.run_harness("hier", sp, name="hier-store", args=["layers=store,store-cy,store-lab"], timeout=3000)
     ctx.validate("Hierarchy_Trace", TRACE.format(nodes="= {1,2,3,4,5}"), tr, name="Hierarchy_Trace-store", corrupt=corrupt, timeout=3000)
     if not q:
         # random trees / forests / near-trees / low-width DAGs up to 300 nodes, certificate-style observations
